@@ -65,4 +65,112 @@ theorem mem_keys_put (m : KV D) (k x : Str) (v : D) : x ∈ keys (put m k v) ↔
 theorem mem_keys_del (m : KV D) (k x : Str) : x ∈ keys (del m k) ↔ x ≠ k ∧ x ∈ keys m := by
   rw [mem_keys_iff, get_del, mem_keys_iff]; by_cases h : x = k <;> simp [h]
 
+/-! ### association lists under `filter` / `map` / `++` (the SQL statements of the SQLite model) -/
+
+variable {V : Type}
+
+theorem get_none_of_not_mem {m : KV V} {n : Str} (h : n ∉ keys m) : get m n = none := by
+  cases hg : get m n with
+  | none => rfl
+  | some v => exact absurd ((mem_keys_iff m n).mpr (by simp [hg])) h
+
+/-- `filter` on an association list with distinct keys -/
+theorem get_filter (p : Str × V → Bool) : ∀ (m : KV V), (keys m).Nodup → ∀ n,
+    get (m.filter p) n = match get m n with
+      | some v => if p (n, v) then some v else none
+      | none => none := by
+  intro m
+  induction m with
+  | nil => intro _ n; simp [get]
+  | cons a m ih =>
+    obtain ⟨k, v⟩ := a
+    intro hnd n
+    simp only [keys, List.map_cons] at hnd
+    obtain ⟨hk, hnd'⟩ := List.nodup_cons.mp hnd
+    have ih' := ih hnd' n
+    by_cases hp : p (k, v) = true
+    · simp only [List.filter_cons, hp, if_true, get]
+      by_cases hn : n = k
+      · subst hn; simp [hp]
+      · simp only [hn, if_false]; exact ih'
+    · have hp' : p (k, v) = false := by simpa using hp
+      simp only [List.filter_cons, hp', Bool.false_eq_true, if_false, get]
+      by_cases hn : n = k
+      · subst hn
+        have hnone : get m n = none := get_none_of_not_mem hk
+        rw [ih', hnone]; simp [hp']
+      · simp only [hn, if_false]; exact ih'
+
+theorem keys_filter_sublist (p : Str × V → Bool) (m : KV V) : (keys (m.filter p)).Sublist (keys m) := by
+  unfold keys
+  exact (List.filter_sublist).map _
+
+theorem nodup_filter (p : Str × V → Bool) (m : KV V) (h : (keys m).Nodup) : (keys (m.filter p)).Nodup :=
+  (keys_filter_sublist p m).nodup h
+
+/-- update the value stored under one key (SQL `UPDATE … WHERE record_id = id`) -/
+theorem get_mapval (g : V → V) (id : Str) : ∀ (m : KV V) (n : Str),
+    get (m.map fun q => if q.1 = id then (q.1, g q.2) else q) n = if n = id then (get m n).map g else get m n := by
+  intro m
+  induction m with
+  | nil => intro n; simp [get]
+  | cons a m ih =>
+    obtain ⟨k, v⟩ := a
+    intro n
+    simp only [List.map_cons, get]
+    by_cases hk : k = id
+    · subst hk
+      simp only [if_true]
+      by_cases hn : n = k
+      · simp [hn]
+      · simp only [hn, if_false]; rw [ih n]; simp [hn]
+    · simp only [hk, if_false]
+      by_cases hn : n = k
+      · subst hn; simp [hk]
+      · simp only [hn, if_false]; exact ih n
+
+theorem keys_mapval (g : V → V) (id : Str) (m : KV V) :
+    keys (m.map fun q => if q.1 = id then (q.1, g q.2) else q) = keys m := by
+  unfold keys
+  rw [List.map_map]
+  apply List.map_congr_left
+  intro q _
+  by_cases h : q.1 = id <;> simp [h]
+
+theorem get_append_single (m : KV V) (k : Str) (v : V) (n : Str) :
+    get (m ++ [(k, v)]) n = match get m n with
+      | some x => some x
+      | none => if n = k then some v else none := by
+  induction m with
+  | nil => simp [get]
+  | cons a m ih =>
+    obtain ⟨k', v'⟩ := a
+    simp only [List.cons_append, get]
+    by_cases hn : n = k'
+    · simp [hn]
+    · simp only [hn, if_false]; exact ih
+
+theorem keys_append_single (m : KV V) (k : Str) (v : V) : keys (m ++ [(k, v)]) = keys m ++ [k] := by
+  simp [keys]
+
+/-- with distinct keys, membership of a pair is `get` -/
+theorem mem_iff_get {m : KV V} (h : (keys m).Nodup) (n : Str) (v : V) : (n, v) ∈ m ↔ get m n = some v := by
+  induction m with
+  | nil => simp [get]
+  | cons a m ih =>
+    obtain ⟨k, v'⟩ := a
+    simp only [keys, List.map_cons] at h
+    obtain ⟨hk, hnd'⟩ := List.nodup_cons.mp h
+    simp only [List.mem_cons, get, Prod.mk.injEq]
+    by_cases hn : n = k
+    · subst hn
+      simp only [true_and, if_true, Option.some.injEq]
+      constructor
+      · rintro (e | hm)
+        · exact e.symm
+        · exact absurd (List.mem_map_of_mem (f := Prod.fst) hm) hk
+      · intro e; exact Or.inl e.symm
+    · simp only [hn, false_and, false_or, if_false]
+      exact ih hnd'
+
 end CogentModel.KV
